@@ -783,4 +783,22 @@ static psX509Cert_t *u_parsed(int id, int which)
     return u->pc[which];
 }
 
+/* drop the cached parse: the next u_parsed() starts from a fresh parse, as a replay does */
+static void u_forget(int id, int which)
+{
+    ucert_t *u = &U[id];
+    if (u->pc_done[which])
+    {
+        if (u->pc[which])
+        {
+            u->pc[which]->next = NULL;
+            psX509FreeCert(u->pc[which]);
+            free(u->pc_sig[which]);
+            u->pc_sig[which] = NULL;
+        }
+        u->pc[which] = NULL;
+        u->pc_done[which] = 0;
+    }
+}
+
 #endif
